@@ -70,8 +70,8 @@ def parse_dump(rp):
     d['nop'] = rp.u32(); d['script'] = rp.bytes(); d['pc'] = rp.u32(); d['pbch'] = rp.u32(); d['pend'] = rp.u32()
     d['opcode_pos'] = rp.u32(); d['codesep'] = rp.u32(); d['weight'] = rp.u64(); d['curr_op_seq'] = rp.u32(); d['done'] = rp.u32()
     d['p2sh'] = rp.u32(); d['successor'] = rp.bytes()
-    d['hist'] = [rp.cu32() for _ in range(4)]
-    if d['hist'][0]:
+    h4 = [rp.cu32() for _ in range(4)]; d['hist'] = h4 + [rp.cu32() for _ in range(3)]
+    if h4[0]:
         d['hist_top'] = dict(stack=rp.items(), alt=rp.items(), pc=rp.u32(), nop=rp.u32())
     d['tce'] = rp.u32()
     return d
@@ -112,8 +112,20 @@ def engine_reply(E, f, out, mode):
     rp = Rep(lambda off, n: E.load(f, out + off, n), uniq)
     return parse_reply(rp, mode)
 
-def native_call(lib, req_bytes, mode, outcap=OUTCAP):
+_ORACLE_KEEP = []
+def set_native_oracle(lib, table):
+    """table: list of [[kind, a, b, c, sv], result] from a counterexample; unknown queries answer 0"""
+    T = {}
+    for (k, a, b, c, sv), r in (table or []): T[(k, bytes(a), bytes(b), bytes(c), sv)] = r
+    CB = ctypes.CFUNCTYPE(ctypes.c_int, ctypes.c_int, ctypes.POINTER(ctypes.c_ubyte), ctypes.c_uint, ctypes.POINTER(ctypes.c_ubyte), ctypes.c_uint, ctypes.POINTER(ctypes.c_ubyte), ctypes.c_uint, ctypes.c_uint)
+    def cb(kind, a, al, b, bl, c, cl, sv):
+        return T.get((kind, bytes(a[:al]) if al else b'', bytes(b[:bl]) if bl else b'', bytes(c[:cl]) if cl else b'', sv), 0)
+    f = CB(cb); _ORACLE_KEEP.append(f)
+    lib.vf_set_oracle(f)
+
+def native_call(lib, req_bytes, mode, outcap=OUTCAP, oracle=None):
     assert not any(is_sym(b) for b in req_bytes)
+    if oracle is not None: set_native_oracle(lib, oracle)
     ib = (ctypes.c_ubyte * (len(req_bytes) + 8))(*req_bytes)
     ob = (ctypes.c_ubyte * outcap)()
     lib.w_sess.restype = ctypes.c_uint
@@ -160,6 +172,7 @@ def diff_paths(E, name, finals, impl_outcome, ref_fn, assume, inputs, key_fn=Non
         if V.status == 'violated': continue
         def on_sat(m, io_, ro_, f=f):
             res['cex'] = concretize(m, inputs)
+            if f.aux.get('oracle'): res['cex']['_oracle'] = concretize(m, [[list(a[0:1]) + [list(a[1]), list(a[2]), list(a[3]), a[4]], v] for a, v in f.aux['oracle']])
             res['note'] = 'implementation: %s | reference: %s' % (short(concretize(m, io_)), short(concretize(m, ro_)))
             res['key'] = key_fn(concretize(m, io_), concretize(m, ro_)) if key_fn else None
         refexec.decide(list(f.pc) if assume_in_pc else list(assume) + list(f.pc), io, cases, V, timeout_ms, on_sat)
